@@ -194,7 +194,7 @@ def run_sankey_unit(u, rec):
     nproc, nf = spec["nproc"], len(spec["flows"])
     pex = [list(c) for r in range(0, nproc) for c in itertools.combinations(range(nproc), r)]
     fex = [list(c) for r in range(0, min(2, nf) + 1) for c in itertools.combinations(range(nf), r)]
-    n = 0
+    n = u.get("seed", 0)
     for sl in SLICES:
         for ep in pex:
             for ef in fex:
@@ -358,11 +358,11 @@ def bounds(tier):
 
 
 def units(tier, seed):
-    out = [dict(kind="sankey", spec=s, tier=tier) for s in sankey_specs(tier)]
+    out = [dict(kind="sankey", spec=s, tier=tier, seed=seed) for s in sankey_specs(tier)]
     cfgs = list(plot_configs(tier))
     for backend in ("plotly", "pyplot"):
         for i in range(0, len(cfgs), 40):
-            out.append(dict(kind="plots", backend=backend, lo=i, hi=i + 40, tier=tier))
+            out.append(dict(kind="plots", backend=backend, lo=i, hi=i + 40, tier=tier, seed=seed))
     return out
 
 
@@ -387,7 +387,7 @@ def run_unit(u):
     charts = ("line", "scatter", "area") if u["backend"] == "plotly" else ("line", "scatter")
     for n, (arr_dims, roles, style, xs) in enumerate(cfgs):
         for ci, chart in enumerate(charts):
-            if u["tier"] == "quick" and chart != "line" and (n + ci) % 4:
+            if u["tier"] == "quick" and chart != "line" and (n + ci + u.get("seed", 0)) % 4:
                 continue
             rec(*run_plot_case(u["backend"], arr_dims, roles, style, xs, chart))
     if u["lo"] == 0 and u["backend"] == "plotly":
